@@ -6,5 +6,26 @@ let handle cmd args : string option =
       | POk r -> string_of_int (List.length r) ^
                  String.concat "" (List.map (fun (hd, sq) -> " " ^ hex_encode (string_of_str hd) ^ " " ^ hex_encode (string_of_str sq)) r)
       | PFail -> "EXC" | POob -> "OOB" | PFuel -> "OUT-OF-FUEL")
+  | "operexpr", ws ->
+    let text = match ws with [h] when h <> "-" -> hex_decode h | _ -> "" in
+    Some (match parse_operation_expr (str_of_string text) with
+      | Throw -> "EXC" | OutOfFuel -> "OUT-OF-FUEL" | OutOfRange -> "EXC"
+      | Done items ->
+        (* the same summary as the harness: count, the first 40 names and the last two *)
+        let counts = List.map (fun it -> int_of_z (count it)) items in
+        let n = List.fold_left (+) 0 counts in
+        let name_at k =            (* k-th name of the expansion *)
+          let rec go its k = match its with
+            | [] -> "?"
+            | it :: rest ->
+              let c = int_of_z (count it) in
+              if k < c then (match it with
+                  | Lit s -> string_of_str s
+                  | Range (lo, _) -> string_of_str (print_int (z_of_int (int_of_z lo + k))))
+              else go rest (k - c) in
+          go items k in
+        let idx = List.filter (fun i -> i < 40 || i + 3 > n) (List.init (min n 40) (fun i -> i) @
+                    (if n > 40 then List.filter (fun i -> i >= 40) [n - 2; n - 1] else [])) in
+        string_of_int n ^ String.concat "" (List.map (fun i -> let s = name_at i in " " ^ (if s = "" then "-" else hex_encode s)) idx))
   | _ -> None
 let () = serve handle
